@@ -82,10 +82,10 @@ OUTCOMES = ["value", "caught", "subcaught", "other", "cancelled", "base", "badst
 def programs(tier: str):
     for limit in BOUNDS[tier]["limits"]:
         for catching in ("default", "class", "tuple", "set", "empty-tuple", "empty-set"):
-            for delay in ("none", "int", "float", "fn", "zero", "zerof", "fn-varargs"):
+            for delay in ("none", "int", "float", "fn", "zero", "zerof", "fn-varargs", "fn-int"):
                 if catching.startswith("empty") and delay not in ("none", "fn"):
                     continue
-                if delay == "fn-varargs" and catching != "class":
+                if delay in ("fn-varargs", "fn-int") and catching != "class":
                     continue
                 for mode in ("sync", "async"):
                     for scoped in (False, True):
@@ -366,6 +366,13 @@ def execute(program, ch: Chooser) -> Result:  # noqa: C901, PLR0912, PLR0915
         kwargs["delay"] = 0.5
     elif delay == "fn":
         kwargs["delay"] = delay_fn
+    elif delay == "fn-int":
+        # a delay function that returns whole numbers (ints), e.g. attempt * 2
+        def delay_fn_int(attempt, exc):
+            delay_calls.append((attempt, exc))
+            return attempt * 2
+
+        kwargs["delay"] = delay_fn_int
     elif delay == "fn-varargs":
         # a delay function that declares a single var-positional parameter (a forwarding wrapper)
         kwargs["delay"] = lambda *details: delay_fn(*details)
@@ -468,7 +475,7 @@ def execute(program, ch: Chooser) -> Result:  # noqa: C901, PLR0912, PLR0915
         retries = len(calls) - 1
         exp_pauses: list[float] = []
         for k in range(1, retries + 1):
-            exp_pauses.append({"none": 0.0, "int": 2.0, "float": 0.5, "fn": 0.25 * k, "zero": 0.0, "zerof": 0.0}[delay])
+            exp_pauses.append({"none": 0.0, "int": 2.0, "float": 0.5, "fn": 0.25 * k, "fn-int": 2.0 * k, "zero": 0.0, "zerof": 0.0}[delay])
         if len(calls) == exp_calls:
             deltas = [calls[i + 1]["t"] - calls[i]["t"] for i in range(retries)]
             if deltas != exp_pauses:
@@ -478,7 +485,7 @@ def execute(program, ch: Chooser) -> Result:  # noqa: C901, PLR0912, PLR0915
                 want = [p for p in exp_pauses] if delay != "none" else []
                 if logged != want:
                     viols.append(viol("delay", f"sleep-calls/{delay}/sync", want, logged))
-            if delay == "fn":
+            if delay in ("fn", "fn-int"):
                 want_args = [(k, calls[k - 1].get("exc")) for k in range(1, retries + 1)]
                 if len(delay_calls) != len(want_args) or any(
                     a[0] != b[0] or a[1] is not b[1] for a, b in zip(delay_calls, want_args)
